@@ -235,16 +235,18 @@ def r_shape_scratch(rule, root=None):
     t, b = shape_eval_fns(root)
     calls = A.linear_calls(t)
     ev = [c for c in calls if c["method"] == "eval" and c["recv"].endswith("self.eval")]
-    rs = [c for c in calls if c["method"] == "resize" and c["recv"] == "self.scratch" and c["args"] and c["args"][0] == "vs.len()" and not c["conds"]]
+    rs = [c for c in calls if c["method"] == "resize" and c["recv"] == "self.scratch" and c["args"] and c["args"][0] in ("vs.len()", "tape.vars().len()") and not c["conds"]]
     if rs and ev and rs[0]["i"] < ev[0]["i"]:
         rule.ok("ShapeTracingEval: scratch resized to this tape's variable count before evaluating", file=SHAPE, line=rs[0]["node"]["ln"])
     else:
         rule.bad("shape-tracing|scratch", "ShapeTracingEval::eval_raw must unconditionally resize its scratch to vs.len() before evaluating", A.where(t))
     calls = A.linear_calls(b)
     ev = [c for c in calls if c["method"] == "eval" and c["recv"].endswith("self.eval")]
-    rs = [c for c in calls if c["method"] == "resize_with" and c["recv"] == "self.scratch" and c["args"] and c["args"][0] == "vs.len().max(1)" and not c["conds"]]
-    rows = [c for c in calls if c["method"] == "resize" and c["args"] and c["args"][0] == "n" and c["loops"] == 1 and not c["conds"]]
-    fors = [f for f in A.find(b["body"], "For") if A.ftxt(f["iter"]) == "&mutself.scratch"]
+    rs = [c for c in calls if c["method"] == "resize_with" and c["recv"] == "self.scratch" and c["args"] and c["args"][0] in ("vs.len().max(1)", "tape.vars().len().max(1)") and not c["conds"]]
+    # (facts are read with simple lets folded: `let n = x.len()` makes the batch length `x.len()`)
+    rows = [c for c in calls if c["method"] == "resize" and c["args"] and c["args"][0] in ("n", "x.len()") and c["loops"] == 1 and not c["conds"]
+            and c["iters"] and c["iters"][-1][0] == c["recv"] and c["iters"][-1][1] in ("&mutself.scratch", "self.scratch.iter_mut()")]
+    fors = rows
     if rs and ev and rs[0]["i"] < ev[0]["i"]:
         rule.ok("ShapeBulkEval: scratch rows resized to max(variable count, 1) on every call", file=SHAPE, line=rs[0]["node"]["ln"])
     else:
